@@ -13,7 +13,7 @@ RULE = ("exhaustive: attempts 1..A x every outcome sequence of that length over 
         "4 classes, thorough: A=6 and 5 classes. Oracle: a reference loop written from the statement gives the number "
         "of inner invocations, the sleeps and the outcome (first ok result by identity / final attempt's exception "
         "object by identity); arguments must reach the inner method unchanged each time. Invalid configurations must "
-        "raise at construction; neighbouring valid ones must not. The same table is run over pymemcache's own exception hierarchy (MemcacheError, MemcacheClientError, MemcacheIllegalInputError, MemcacheServerError, MemcacheUnexpectedCloseError, MemcacheUnknownCommandError) and socket.timeout / ConnectionResetError / KeyError: no class is treated specially. The table is also run with the call made from inside an `except` block of the caller, for each class being handled there (the implicit exception context is not part of the outcome of the wrapped call). A wrapped call that succeeds with an exception INSTANCE as its return value (of any of the classes, under every filter pair) has succeeded: returned unchanged, not retried. Wrapped instances: three RetryingClients alive at once around different instances of one class whose operations are instance attributes (name sets differing from instance to instance), every offered operation called through every wrapper in both orders - the same reference decides, and dir() of the wrapper lists the operation. Non-trivial: >=2 invocations were needed or a filter "
+        "raise at construction; neighbouring valid ones must not. The same table is run over pymemcache's own exception hierarchy (MemcacheError, MemcacheClientError, MemcacheIllegalInputError, MemcacheServerError, MemcacheUnexpectedCloseError, MemcacheUnknownCommandError) and socket.timeout / ConnectionResetError / KeyError: no class is treated specially. The table is also run with the call made from inside an `except` block of the caller, for each class being handled there (the implicit exception context is not part of the outcome of the wrapped call). A wrapped call that succeeds with an exception INSTANCE as its return value (of any of the classes, under every filter pair) has succeeded: returned unchanged, not retried. So has one that returns a list of refused keys, an empty or partial dict, False, None, 0 or a pair of Nones - under the multi-key and single-key method names of the client API alike. Wrapped instances: three RetryingClients alive at once around different instances of one class whose operations are instance attributes (name sets differing from instance to instance), every offered operation called through every wrapper in both orders - the same reference decides, and dir() of the wrapper lists the operation. Non-trivial: >=2 invocations were needed or a filter "
         "stopped a retry.")
 MANIFEST = {
     "category": "exploration",
@@ -401,7 +401,7 @@ def returned_exception_cases(tier, seed):
     subs = _subsets(ncls)
     pairs = [(rf, dn) for rf in subs for dn in subs if not set(rf) & set(dn)]
     for attempts in (1, 2, 3):
-        for fails in itertools.product(range(1, ncls + 1), repeat=attempts - 1):
+        for fails in [f for nf in range(attempts) for f in itertools.product(range(1, ncls + 1), repeat=nf)]:      # the success may come on any attempt
             for ret in range(1, ncls + 1):
                 for pi, (rf, dn) in enumerate(pairs):
                     yield (attempts, tuple(fails) + (-ret,), rf, dn, (pi + ret) % 3)
@@ -463,6 +463,82 @@ def ambient_cases(tier, seed):
                     if tier == "quick" and (pi + amb + len(seq)) % 2:
                         continue
                     yield (attempts, seq, rf, dn, pi % 3, 0.25, (pi + amb) % 3, amb)
+
+
+# ---- whatever a successful call returns is the result -----------------------------------------------------------------
+
+RESULTS = {"failed-keys": ["k2"], "empty-list": [], "false": False, "none": None, "zero": 0, "empty-dict": {}, "partial-dict": {"k1": b"v"}, "pair-of-none": (None, None), "true": True}
+RESULT_METHODS = ["set_many", "set_multi", "get_many", "delete_many", "set", "get", "gets", "incr", "touch", "add"]
+
+
+class AnyInner:
+    """a wrapped client offering the multi-key and single-key method names, returning what the case says"""
+
+    def __init__(self, seq, result):
+        self.seq, self.result, self.calls, self.raised = seq, result, [], []
+
+    def _do(self, *a, **k):
+        i = len(self.calls)
+        self.calls.append((a, k))
+        if i >= len(self.seq):
+            raise AssertionError("inner invoked more often than outcomes exist")
+        if self.seq[i] == 0:
+            return self.result
+        e = CLASSES[self.seq[i] - 1]("attempt %d" % i)
+        self.raised.append(e)
+        raise e
+
+
+for _m in RESULT_METHODS:
+    setattr(AnyInner, _m, AnyInner._do)
+
+
+def any_result_cases(tier, seed):
+    for attempts in (1, 2, 3):
+        for fails in [f for nf in range(attempts) for f in itertools.product(range(1, 3), repeat=nf)]:      # the success may come on any attempt
+            for rname in RESULTS:
+                for mi, meth in enumerate(RESULT_METHODS):
+                    for rf, dn in (((), ()), ((0,), ()), ((), (3,)), ((1,), (2,))):
+                        yield (attempts, tuple(fails) + (0,), rf, dn, meth, rname)
+
+
+def check_any_result(case):
+    """a call that returns - a list of refused keys, an empty or partial dict, False, None, 0 - has succeeded: its value comes
+    back unchanged, without another attempt and without a sleep, whatever the method is called"""
+    attempts, seq, rf, dn, meth, rname = case
+    kw = {}
+    if rf:
+        kw["retry_for"] = [CLASSES[j] for j in rf]
+    if dn:
+        kw["do_not_retry_for"] = [CLASSES[j] for j in dn]
+    result = RESULTS[rname]
+    saved = R.sleep
+    sleeps = []
+    R.sleep = sleeps.append
+    try:
+        inner = AnyInner(seq, result)
+        rc = R.RetryingClient(inner, attempts=attempts, retry_delay=0.5, **kw)
+        try:
+            got = ("ok", getattr(rc, meth)({"k1": b"v", "k2": b"w"}))
+        except AssertionError:
+            got = ("too-many-calls",)
+        except Exception as e:  # noqa: BLE001
+            got = ("exc", e)
+    finally:
+        R.sleep = saved
+    want_calls, want, _f = reference(attempts, seq, rf, dn)
+    desc = "%s() with attempts=%d outcomes=%r retry_for=%r do_not_retry_for=%r" % (
+        meth, attempts, [CLASSES[o - 1].__name__ for o in seq[:-1]] + ["returns %r" % (result,)], [CLASSES[j].__name__ for j in rf], [CLASSES[j].__name__ for j in dn])
+    if len(inner.calls) != want_calls:
+        raise Violation(["any-result", "invocations", meth], "inner invoked %d times, expected %d: %s" % (len(inner.calls), want_calls, desc))
+    if want[0] == "ok":
+        if not (got[0] == "ok" and got[1] is result):
+            raise Violation(["any-result", "outcome", meth], "outcome %r, expected the returned object itself: %s" % (got, desc))
+    elif got[0] != "exc" or got[1] is not inner.raised[-1]:
+        raise Violation(["any-result", "outcome", meth], "outcome %r, expected the exception of attempt %d: %s" % (got, want_calls - 1, desc))
+    if sleeps != [0.5] * (want_calls - 1):
+        raise Violation(["any-result", "sleeps", meth], "sleeps %r, expected %r: %s" % (sleeps, [0.5] * (want_calls - 1), desc))
+    return True, ["any-result", meth, rname]
 
 
 class DynInner:
@@ -539,6 +615,7 @@ PARTS = [
     Part("library-exception-classes", "enum", check_lib, cases=lib_cases, exhaustive=True, distinct_by_construction=True),
     Part("results-that-are-exceptions", "enum", check_returned_exception, cases=returned_exception_cases, exhaustive=True),
     Part("calls-from-an-except-block", "enum", check, cases=ambient_cases, exhaustive=True, distinct_by_construction=True),
+    Part("results-of-any-kind", "enum", check_any_result, cases=any_result_cases, exhaustive=True),
     Part("wrapped-instances", "enum", check_instances, cases=instance_cases, exhaustive=True),
     Part("decision-table", "enum", check, cases=cases, exhaustive=True, distinct_by_construction=True),
     Part("configurations", "enum", check_config, cases=config_cases, shards={"quick": 1, "thorough": 1}, exhaustive=True),
